@@ -14,12 +14,12 @@ import (
 // --check writes nothing and fails exactly when a rewrite would change the file.
 
 type c13Case struct {
-	Rule    string `json:"rule"`
-	Ext     string `json:"ext"`
-	Content string `json:"content"`
-	All     bool   `json:"all"` // use --all instead of the rule argument
-	GitHub  bool   `json:"github"`
-	Lane    string `json:"lane"`
+	Rule    string     `json:"rule"`
+	Ext     string     `json:"ext"`
+	Content string     `json:"content"`
+	All     bool       `json:"all"` // use --all instead of the rule argument
+	GitHub  bool       `json:"github"`
+	Lane    string     `json:"lane"`
 	Others  []c13Other `json:"others,omitempty"` // further test files in the same tree (state must not carry over between files)
 }
 
